@@ -2,6 +2,7 @@
   C06 — text outside the grammar is rejected, never silently repaired.
 -/
 import Pyab.Properties.C06_parser
+import Pyab.Properties.EvaluatorPremise
 import Pyab.Properties.C06_lexer
 import Pyab.Generated.LexRules
 import Pyab.Generated.LRTables
